@@ -489,6 +489,12 @@ func c16Grep(rc *RunCtx, t *simrt.Tape, dir string, p parCfg) {
 	n := 2 + t.Choose(30)
 	recs := annotatedRecs(t, n, fastq)
 	paired := t.Choose(3) == 2
+	if paired && t.Choose(2) == 1 {
+		// several write workers (a quarter of --max-cpu) and several batches: the two output
+		// files are written from batches that complete in any order
+		p.MaxCPU = []int{8, 32}[t.Choose(2)]
+		p.BatchSize = 1 + t.Choose(3)
+	}
 	var mates []Rec
 	o := drawGrepOpts(t, recs)
 	if t.Choose(4) == 3 {
@@ -850,8 +856,26 @@ func c16Distribute(rc *RunCtx, t *simrt.Tape, dir string, p parCfg) {
 		args = append(args, "-Z")
 		suffix = ".gz"
 	}
+	if t.Choose(3) == 2 {
+		args = append(args, "--fasta-output") // else: the format is guessed from the records
+	}
 	in := filepath.Join(dir, "in.fasta")
-	os.WriteFile(in, fastaText(recs, true), 0644)
+	if mode <= 1 && t.Choose(3) == 2 {
+		// two runs: the second one appends (-A) to the files the first one has written
+		k := 1 + t.Choose(n-1)
+		first := filepath.Join(dir, "first.fasta")
+		os.WriteFile(first, fastaText(recs[:k], true), 0644)
+		a1 := append(append([]string{}, args...), first)
+		c1 := rc.c16Run("obidistribute", a1, dir, p)
+		if !rc.cmdMustSucceed(c1, "C16/obidistribute", fmt.Sprintf("obidistribute %v (%s)", relArgs(a1, dir), p)) {
+			return
+		}
+		os.WriteFile(in, fastaText(recs[k:], true), 0644)
+		args = append(args, "-A")
+		rc.Probe("obidistribute_append_to_existing_files")
+	} else {
+		os.WriteFile(in, fastaText(recs, true), 0644)
+	}
 	args = append(args, in)
 	rc.Out.Sample = map[string]any{"command": "obidistribute", "options": relArgs(args, dir), "records": n, "config": p.String()}
 	co := rc.c16Run("obidistribute", args, dir, p)
@@ -1056,7 +1080,7 @@ func init() {
 		Random: func(tier string) int { return map[string]int{"quick": 420, "thorough": 30000}[tier] },
 		Run:    runC16,
 		Level:  "exploration",
-		Rule:   "each case = generated records and a drawn subset of options (single options, pairs, larger subsets; repeatable options 1-3 times; length and count values at and around existing values) for obigrep (-l -L -c -C -s -D -I -A -a --id-list -p 'annotations.count OP N' -v --save-discarded, and --paired-with x --paired-mode forward/reverse/and/or/andnot/xor), obiannotate (--clear --set-identifier --delete-tag -k -R --length -S --cut), obidistribute (-c -p --na-value) and obimultiplex -u, run through the real main of the command in a child process under a drawn --max-cpu / --batch-size / schedule / pool policy; a reference interpreter of the options' documented meaning computes the kept records, the discarded records, the edited records, the output file of each record and the mate ranks. distinct = distinct (command, option vector, configuration, schedule signature); non-trivial = at least one step with >=2 runnable tasks",
+		Rule:   "each case = generated records and a drawn subset of options (single options, pairs, larger subsets; repeatable options 1-3 times; length and count values at and around existing values) for obigrep (-l -L -c -C -s -D -I -A -a --id-list -p 'annotations.count OP N' -v --save-discarded, and --paired-with x --paired-mode forward/reverse/and/or/andnot/xor), obiannotate (--clear --set-identifier --delete-tag -k -R --length -S --cut), obidistribute (-c -p --na-value --batches --hash -Z --fasta-output, and a second run with -A on existing files) and obimultiplex -u, run through the real main of the command in a child process under a drawn --max-cpu / --batch-size / schedule / pool policy; a reference interpreter of the options' documented meaning computes the kept records, the discarded records, the edited records, the output file of each record and the mate ranks. distinct = distinct (command, option vector, configuration, schedule signature); non-trivial = at least one step with >=2 runnable tasks",
 		Real:   []string{"the real mains of obigrep, obiannotate, obidistribute, obimultiplex", "obiseq predicates, workers, expression language", "obiiter FilterOn / DivideOn / Distribute / PairTo", "WriterDispatcher and the writers on real files"},
 		Stub:   []string{"sync primitives, pools, scheduler (simrt)", "process exit (captured)", "the reference interpreter stands for the documentation of the options (stated subset only: no --aho-corasick, --pattern, taxonomy options, scripts)"},
 	})
